@@ -130,9 +130,17 @@ func c13Mutations(c *vCatalogue, m *vPos, sch vMappingSchema) []c13Mut {
 				if m.NPath == "jobs.*" && (strings.HasPrefix(other[i], "uses:") || strings.HasPrefix(other[j], "uses:")) {
 					continue // "uses" turns the job into a call: the job's own keys are then the foreign ones
 				}
-				src, lm := ins(m.EndLine, []string{ind + other[i], ind + other[j]})
-				mu := c13Mut{kind: "variant-pair", key: strings.SplitN(other[i], ":", 2)[0] + "+" + strings.SplitN(other[j], ":", 2)[0], src: src, expLine: m.EndLine + 1, expCol: m.Indent, lineMap: lm}
-				out = append(out, mu)
+				// after the last key, and (block mappings that are not sequence items) before the first
+				// one - for a call job that is before `uses`
+				afters := []int{m.EndLine}
+				if !seqItem {
+					afters = append(afters, first.Line-1)
+				}
+				for _, after := range afters {
+					src, lm := ins(after, []string{ind + other[i], ind + other[j]})
+					mu := c13Mut{kind: "variant-pair", key: strings.SplitN(other[i], ":", 2)[0] + "+" + strings.SplitN(other[j], ":", 2)[0], src: src, expLine: after + 1, expCol: m.Indent, lineMap: lm}
+					out = append(out, mu)
+				}
 			}
 		}
 	}
@@ -329,7 +337,7 @@ func c13Verdict(r *vReport, errs []*Error, rp map[string]any, npath string) {
 				}
 			}
 			if !found {
-				r.Violation("other-variant-key-not-reported:"+npath+":second-of-pair", fmt.Sprintf("%s: keys %q of the other variant were added after the last key (lines %d and %d); the one at line %d is not reported; diagnostics: %s", where, key, expLine, expLine+1, expLine+off, vTrunc(fmt.Sprint(ds), 400)), rp)
+				r.Violation("other-variant-key-not-reported:"+npath+":second-of-pair", fmt.Sprintf("%s: keys %q of the other variant were added together (lines %d and %d); the one at line %d is not reported; diagnostics: %s", where, key, expLine, expLine+1, expLine+off, vTrunc(fmt.Sprint(ds), 400)), rp)
 			}
 		}
 	case strings.HasPrefix(kind, "variant"):
